@@ -106,7 +106,7 @@ func rndCodeArea(r *rand.Rand) Cfg {
 	return c
 }
 
-func randomAll(c *lib.Ctx) error {
+func randomAll(c *lib.Ctx) ([]StrCase, []WidgetCase, error) {
 	rng := rand.New(rand.NewSource(c.Seed*7919 + 34))
 	// strings
 	var scs []StrCase
@@ -116,7 +116,7 @@ func randomAll(c *lib.Ctx) error {
 		c.AddEvals(1)
 		sc, pan, err := runStr(cs, w)
 		if err != nil {
-			return lib.Infra("random string: %v", err)
+			return nil, nil, lib.Infra("random string: %v", err)
 		}
 		if pan != "" {
 			reject(c, "wcwidth:panic", pan, sc)
@@ -124,9 +124,6 @@ func randomAll(c *lib.Ctx) error {
 		}
 		scs = append(scs, sc)
 		c.Distinct([]any{cs, w})
-	}
-	if err := judgeStrs(c, "JudgeWidth/random-strings", scs, c.Pick(2, 6)); err != nil {
-		return err
 	}
 	c.Set("random_strings_judged", len(scs))
 	// widgets
@@ -141,12 +138,8 @@ func randomAll(c *lib.Ctx) error {
 	}
 	wcs, err := renderAndCollect(c, cfgs, func(i int) []Size { return sizes[i] }, c.Seed*15485863)
 	if err != nil {
-		return err
-	}
-	if err := judgeWidgets(c, "JudgeWidth/random-widgets", wcs, c.Pick(2, 6)); err != nil {
-		return err
+		return nil, nil, err
 	}
 	c.Set("random_widgets_judged", len(wcs))
-	c.Logf("random: %d strings, %d widget states x 5 sizes judged", len(scs), len(wcs))
-	return nil
+	return scs, wcs, nil
 }
